@@ -24,6 +24,8 @@
 #include <new>
 #include <sstream>
 #include <string>
+#include <thread>
+#include <unistd.h>
 #include <vector>
 
 namespace rp {
@@ -303,10 +305,35 @@ template <typename Fn>
 int replay_main(std::istream &in, Fn &&run) {
     Result r;
     Scenario sc;
+    // per-scenario watchdog: a scenario that does not finish (a thread of the implementation blocked in a real,
+    // non-virtual primitive, a livelock) is reported as "HANG <id>" and ends the replayer; the driver then reports
+    // that scenario.  REPLAY_SCENARIO_TIMEOUT seconds (default 120).
+    // (a watchdog thread with its own tick counter: no signals - the library's own signal.h shadows <signal.h> on the
+    // harness include path - and no clock, which may be virtual)
+    static char hang_msg[256];
+    static std::atomic<long> wd_scn{-1};
+    const char *ts = getenv("REPLAY_SCENARIO_TIMEOUT");
+    unsigned tmo = ts ? (unsigned) atoi(ts) : 120;
+    std::thread([tmo] {
+        long last = -2, since = 0;
+        for (;;) {
+            usleep(250000);
+            long c = wd_scn.load();
+            if (c != last) { last = c; since = 0; }
+            else if (c >= 0 && ++since > (long) tmo * 4) {
+                ssize_t k = write(1, hang_msg, strlen(hang_msg)); (void) k;
+                _exit(3);
+            }
+        }
+    }).detach();
     while (read_scenario(in, sc)) {
         r.scenarios++;
         Reporter rep(sc);
+        snprintf(hang_msg, sizeof hang_msg, "HANG %s scenario did not finish within %u s\n", sc.id.c_str(), tmo);
+        fflush(stdout);
+        wd_scn.store(r.scenarios);
         run(sc, rep);
+        wd_scn.store(-1);
         r.steps += (long) sc.steps.size();
         if (rep.diverged()) r.diverged++;
         else if (rep.errored()) r.errors++;
